@@ -223,6 +223,14 @@ class TGen:
         nreq = n if (not unk_ok or rng.random() < 0.7) else rng.randint(0, n)
         return fn(nreq, ps, sub())
 
+    def blur(self, t, p=0.35):
+        """the same type with some subterms replaced by the bottom type"""
+        if self.rng.random() < p and t.kind != 'gen':
+            return UNK
+        if t.kind == 'fn':
+            return T('fn', None, t.args, t.nreq, self.blur(t.ret, p))
+        return T(t.kind, t.name, [self.blur(a, p) for a in t.args], t.nreq, None)
+
     def mutate(self, t, unk_ok=True):
         m = self.mutate1(t, unk_ok)
         return m if unk_ok else as_callable(m)
@@ -487,7 +495,11 @@ class C04(PropertyCheck):
         while n_lit > 0:
             a = g.ty(rng.choice([0, 1, 2, 2]))
             elems = [norm(e) for e in [a] + [g.mutate(a) for _ in range(rng.choice([1, 1, 2]))]]
-            rng.shuffle(elems)
+            if rng.random() < 0.4:
+                # the first element fully known, a later one partly bottom and (usually) incompatible elsewhere
+                elems = [norm(a), norm(g.blur(g.mutate(g.mutate(a)), 0.3))] + elems[2:]
+            else:
+                rng.shuffle(elems)
             if not all(writable(e) for e in elems):
                 continue
             n_lit -= 1
@@ -538,6 +550,15 @@ class C04(PropertyCheck):
             call = 'fv(' + ', '.join(a.expr() for a in args) + ')'
             add('function-value-call', f'let fv = {f.expr()};\nlet v = {call};', f'let fv = {f.expr()};\nlet probe: Probe0 = {call};',
                 f'obs_value_call {f.coq()} {clist(args)}', {'function': f.show(), 'window': [nreq, n], 'arguments': [a.show() for a in args]})
+        # ---------- two different compounds with the same name at different scope levels are different types
+        shadow = [('let', 'let p: Pt = origin();'), ('output', 'fn r1() -> Pt { origin() }'), ('argument', 'fn a1(x: Pt) -> int { 0 }\nlet v = a1(origin());'),
+                  ('struct-field', 'struct W(f: Pt)\nlet v = W(origin());'), ('literal', 'let v = [origin(), Pt("s")];'), ('let-inner-ok', 'let p: Pt = Pt("s");')]
+        for kind, body in shadow:
+            for inner_decl, outer_val in [('struct Pt(x: str)', 'Pt(1)'), ('struct Pt(x: str, y: int)', 'Pt(1)'), ('union Pt(x: str, y: int)', 'Pt(1)')]:
+                prog = (PRELUDE + f'struct Pt(x: int)\nfn origin() -> Pt {{ {outer_val} }}\nfn host<T,U>(t: T, u: U) -> int {{\n{inner_decl}\n' +
+                        body.replace('Pt("s")', 'Pt("s")' if 'y: int' not in inner_decl else ('Pt("s", 1)' if inner_decl.startswith('struct') else 'Pt::x("s")')) + '\n0\n}\n')
+                want = 'ok:Pt' if kind == 'let-inner-ok' else 'rej'
+                tests.append(('shadowed-compound:' + kind, prog, None, f'(if true then "{want}" else "")%string', {'inner': inner_decl, 'statement': body}))
         # ---------- self-check of the expression synthesis: every supplied expression has the intended static type
         seen_types = {}
         for pr in pairs:
